@@ -86,9 +86,6 @@ NONNULL_TIME_PARAMS = {'unschedule_job': ['new_end_time'], 'deactivate_instance'
 
 def build(ctx):
     ex = sqlvc.Exec(inline_after=False)
-    mjgc = ex.routines.get('mark_job_group_complete')
-    if mjgc is not None:
-        ex.stubs['mark_job_group_complete'] = sqlvc.havoc_stub(sqlvc.written_tables(mjgc))
     trg = ex.triggers.get(('attempts', 'BEFORE', 'UPDATE'))
     if trg is None:
         raise core.Undecided('anchor-moved: no BEFORE UPDATE trigger on attempts')
